@@ -12,6 +12,21 @@ try:
     buf = io.StringIO()
     with contextlib.redirect_stdout(buf):
         s = pytask.build(paths=[d], capture="no")
-    json.dump({"exit_code": int(s.exit_code), "executed": (d / "out.txt").exists()}, sys.stdout)
+    res = {"exit_code": int(s.exit_code), "executed": (d / "out.txt").exists()}
+    # the same for a task that is not a decorated function: a task object handed over through build(tasks=[...])
+    from pytask import Mark, PathNode, TaskWithoutPath
+    d2 = d / "obj"
+    d2.mkdir()
+    (d2 / "pyproject.toml").write_text("[tool.pytask.ini_options]\n")
+
+    def f(produces=d2 / "o.txt"):
+        produces.write_text("x")
+    t = TaskWithoutPath(name="both", function=f, markers=[Mark("try_first", (), {}), Mark("try_last", (), {})],
+                        produces={"produces": PathNode(path=d2 / "o.txt")})
+    with contextlib.redirect_stdout(buf):
+        s2 = pytask.build(tasks=[t], paths=[d2], capture="no")
+    res["object_exit_code"] = int(s2.exit_code)
+    res["object_executed"] = (d2 / "o.txt").exists()
+    json.dump(res, sys.stdout)
 finally:
     shutil.rmtree(d, ignore_errors=True)
